@@ -110,6 +110,7 @@ int main(int argc, char **argv)
 	vrt_add_class("_os_mpsc_tail", 2);
 	vrt_add_class("_os_mpsc_head", 2);
 	vrt_set_hang_seconds(60);
+	vrt_set_record_progress(0);   /* the pool monitor / background stream touch registered words on their own */
 	(void)vrt_tid();
 	g_rq = (dispatch_queue_global_t)dispatch_get_global_queue(0, 0);
 	/* make sure the root queues and the pool monitor are initialised before recording starts */
